@@ -70,6 +70,12 @@ add("C18", "exploration",
     "deterministic simulation: seeded read histories over three storage back ends with the in-memory dataset as executable reference model",
     "DESIGN.md section 5 C18")
 
+add("C02", "exploration",
+    "Seeded configurations (sizes, size matching, scales of both stages, strides, crop, refinement, batch, dtype, anchor) x scenes in general position, run through the simulated inference stream with both providers around an ideal-network stub that decodes from the tensor it is handed where the content came from; predicted coordinates must match the scene in original-image coordinates within a tolerance derived from the statement, invisible keypoints NaN/0, LabelsReader == VideoReader.",
+    "Trusts the content-decoding stub (closed-form Gaussian bumps from C01's statement, least-squares axis fit) and the derived tolerance (half cell + half-pixel convention + size rounding + 0.6 px); RGB frames; make_labels=False records.",
+    "deterministic simulation of the inference stream with an ideal-network stub and content-decoding oracle",
+    "DESIGN.md section 5 C02")
+
 PENDING = ["C02","C03","C04","C09","C10","C11","C12","C14","C18","C19"]
 
 def main():
